@@ -16,6 +16,9 @@ mod c07;
 mod c09;
 mod c09cli;
 mod c10;
+mod cli;
+mod clicheck;
+mod c17;
 mod progs;
 mod asm;
 mod machine;
@@ -58,6 +61,7 @@ fn main() {
         "C07" => "C07",
         "C09" => "C09",
         "C10" => "C10",
+        "C17" => "C17",
         _ => usage(),
     };
     let ctx = Ctx::new(prop, tier, seed);
@@ -71,6 +75,7 @@ fn main() {
         "C07" => c07::run(&ctx),
         "C09" => c09::run(&ctx),
         "C10" => c10::run(&ctx),
+        "C17" => c17::run(&ctx),
         _ => unreachable!(),
     }
     std::process::exit(ctx.finish());
@@ -98,6 +103,7 @@ fn replay(path: &str) -> i32 {
         "l1" => l1::replay(&v),
         "seq" => hist::replay(&v),
         "c10" => c10::replay(&v),
+        "cli" => clicheck::replay(&v),
         _ => Err(format!("unknown replay kind '{}'", kind)),
     };
     match r {
